@@ -601,6 +601,38 @@ fn huge_geometries(ctx: &Ctx) {
             }
         }
     }
+    // a view is consistent with itself whatever its base: what was marked through a slice at an
+    // offset reads dirty through that slice at that offset exactly when the mark landed on a
+    // page - also for bases so close to usize::MAX that base + offset leaves the address space
+    // (whichever way that sum is understood, marking and looking up must understand it alike)
+    for (b, p) in [(1024usize, 128usize), (5, 2), (4096, 4096), (200, 7), (top, 1 << 60)] {
+        for o in [top - 99, top - 1, top, 1 << 63, top - b / 2] {
+            for target in [0usize, 100 % b, b - 1, b / 2] {
+                for nested in [false, true] {
+                    t += 1;
+                    ctx.case(true);
+                    let x = target.wrapping_sub(o);
+                    let bm = AtomicBitmap::new(b, NonZeroUsize::new(p).unwrap());
+                    let s = if nested { bm.slice_at(o.wrapping_sub(5)).slice_at(5) } else { bm.slice_at(o) };
+                    s.mark_dirty(x, 1);
+                    let landed = (0..bm.len().min(4096)).any(|k| bm.is_bit_set(k)) || bm.is_addr_set(b - 1);
+                    let seen = s.dirty_at(x);
+                    let arc = std::sync::Arc::new(AtomicBitmap::new(b, NonZeroUsize::new(p).unwrap()));
+                    let sa: ArcSlice<AtomicBitmap> = if nested { ArcSlice::new(arc.clone(), o.wrapping_sub(5)).slice_at(5) } else { ArcSlice::new(arc.clone(), o) };
+                    sa.mark_dirty(x, 1);
+                    let landed_a = (0..arc.len().min(4096)).any(|k| arc.is_bit_set(k)) || arc.is_addr_set(b - 1);
+                    let seen_a = sa.dirty_at(x);
+                    if seen != landed || seen_a != landed_a {
+                        ctx.fail(
+                            "C09/slice-view/mark-and-lookup-disagree",
+                            &format!("bitmap of {:#x} bytes, pages of {:#x}: slice at base {:#x}{}: mark_dirty({:#x}, 1) {} a page, dirty_at({:#x}) through the same slice = {} (RefSlice) / {} a page, {} (ArcSlice)", b, p, o, if nested { " (reached in two steps)" } else { "" }, x, if landed { "marked" } else { "did not mark" }, x, seen, if landed_a { "marked" } else { "did not mark" }, seen_a),
+                            json!({"byte_size": format!("{:#x}", b), "page_size": format!("{:#x}", p), "base": format!("{:#x}", o), "offset": format!("{:#x}", x), "nested": nested}),
+                        );
+                    }
+                }
+            }
+        }
+    }
     ctx.add_transitions(t);
     ctx.add_traces(t);
 }
@@ -756,7 +788,7 @@ fn boundary(ctx: &Ctx, pages: usize, page: usize, slack: usize, depth2: bool) {
 
 pub fn run(tier: Tier, replay: Option<String>) -> i32 {
     let ctx = crate::new_ctx("C09", tier, "model_checking", &replay);
-    ctx.set_rule("E1: BFS to an empty frontier over every public operation (full argument ranges 0..=bytes+2p plus values around isize::MAX/usize::MAX) on tiny AtomicBitmaps (<= 6 pages, page size 1..3, byte sizes +-1 around page multiples); state = complete concrete state (byte_size, page_size, set of dirty pages as decoded from the raw words); every transition is executed on the real bitmap, rebuilt by replaying the shortest history, and every observable (len, byte_size, is_bit_set, is_addr_set, dirty_at, slices, nested slices, raw words) is compared with a BTreeSet model. Plus all histories of 3 (thorough 4) operations over a reduced alphabet (single-page and past-the-end marks, enlarge, harvest, resets, clone, clone_from into larger dirty bitmaps) WITHOUT merging states, so that state kept beside the bits cannot hide behind the state key. Plus geometries at the top of the size range (byte sizes within a page of usize::MAX, page sizes up to usize::MAX; built directly and by enlarge) against 128-bit arithmetic. On these geometries page numbers at and beyond the page count, including those whose first byte address does not fit in a usize, are marked and cleared and must change nothing. Plus depth-1/2 sweeps on word-boundary configurations (63..129 pages, page sizes 1,3,5,7,4096,4097).");
+    ctx.set_rule("E1: BFS to an empty frontier over every public operation (full argument ranges 0..=bytes+2p plus values around isize::MAX/usize::MAX) on tiny AtomicBitmaps (<= 6 pages, page size 1..3, byte sizes +-1 around page multiples); state = complete concrete state (byte_size, page_size, set of dirty pages as decoded from the raw words); every transition is executed on the real bitmap, rebuilt by replaying the shortest history, and every observable (len, byte_size, is_bit_set, is_addr_set, dirty_at, slices, nested slices, raw words) is compared with a BTreeSet model. Plus all histories of 3 (thorough 4) operations over a reduced alphabet (single-page and past-the-end marks, enlarge, harvest, resets, clone, clone_from into larger dirty bitmaps) WITHOUT merging states, so that state kept beside the bits cannot hide behind the state key. Plus geometries at the top of the size range (byte sizes within a page of usize::MAX, page sizes up to usize::MAX; built directly and by enlarge) against 128-bit arithmetic. On these geometries page numbers at and beyond the page count, including those whose first byte address does not fit in a usize, are marked and cleared and must change nothing. Slices at bases within 100 bytes of usize::MAX, at 2^63 and reached in two steps (RefSlice and ArcSlice): a mark through the slice at an offset whose sum with the base leaves the address space and a lookup through the same slice at the same offset agree. Plus depth-1/2 sweeps on word-boundary configurations (63..129 pages, page sizes 1,3,5,7,4096,4097).");
     ctx.assume("successors with more than 6 pages (after enlarge) are checked but not expanded further in the closure; the boundary sweeps cover large bitmaps");
     if let Some(r) = ctx.replay_of.clone() {
         let c = &r["case"];
